@@ -320,9 +320,14 @@ func (g *Graph) addTask(t *Task) error {
 	// 	g.errs = append(g.errs, err)
 	// 	return err
 	// }
-	if _, ok := g.Vertices[t.ID]; !ok {
-		g.dotDiagram += fmt.Sprintf("\t\"%s\";\n", t.ID)
+	if v, ok := g.Vertices[t.ID]; ok {
+		// The task is already known (added before, or created by TaskDependsOn or
+		// TaskRetries): keep its vertex so that the dependencies and retries already
+		// declared for it, and the edges other vertices have to it, stay in place.
+		v.Task = t
+		return nil
 	}
+	g.dotDiagram += fmt.Sprintf("\t\"%s\";\n", t.ID)
 	g.Vertices[t.ID] = &Vertex{
 		ID:       t.ID,
 		Task:     t,
